@@ -863,7 +863,8 @@ where
         let res = self.parser.go::<M>(inp);
 
         if res.is_err() {
-            let alt = inp.take_alt();
+            // Record the error, but leave it in place: it's still the pending error of this (failed) parse
+            let alt = inp.errors.alt.clone();
             inp.memos.insert(key, alt);
         } else {
             inp.memos.remove(&key);
